@@ -226,6 +226,23 @@ def run(scn):
                 elif res[0] == 'lexerr' and getattr(res[1], 'lineno', None) != line:
                     J.V('C11.2-line', 'oversize number at line %d of %s reported at line %r' % (line, f.name, getattr(res[1], 'lineno', None)), what='wrong-line-number', inserted='bignum')
                 J.sigs.add((f.name, 'number', big[0] == '-', res[0], type(res[1]).__name__ if res[0] != 'ok' else 'ok'))
+    elif k == 'string':
+        f = fl[scn['file']]
+        ref = intact(tier, scn['file'], d)
+        for (pos, end) in scn['spans']:
+            if J.abort:
+                break
+            for inner in ('', 'x', '2020-01-01', '202001010000', '99991231', 'caf\u00e9', '100% sure', 'a\tb'):
+                text = f.text[:pos] + '"' + inner + '"' + f.text[end:]
+                res = attempt(d, text)
+                J.units += 1
+                J.fire('string-content-replaced')
+                if J.clause1(res, text, 'for file %s with string at %d replaced by %r' % (f.name, pos, inner)) and res[0] == 'ok' and ref is not None:
+                    # only the content of one quoted string changed: the same modules must come back, nothing dropped
+                    if len(res[1]) != len(ref) or [m[0] for m in res[1]] != [m[0] for m in ref]:
+                        J.V('C11.3-truncated', 'replacing a quoted string of %s by "%s" made the parser return %d module(s) instead of %d without any error' % (
+                            f.name, inner, len(res[1]), len(ref)), what='modules-dropped-silently')
+                J.sigs.add((f.name, 'string', inner, res[0], type(res[1]).__name__ if res[0] not in ('ok', 'timeout') else res[0]))
     elif k == 'token':
         f = fl[scn['file']]
         for (pos, end) in scn['spans']:
@@ -315,8 +332,18 @@ def run_compile(scn, J, tier):
         if hung:
             break
         via = scn['via']
-        damaged = f.text[:cut]
-        inside = f.inside_module(cut)
+        noise = scn.get('noise')
+        if noise:
+            # instead of a cut: a stray separator character as a line of its own before declaration line `cut`
+            lines_ = f.text.split(f.eol)
+            lines_.insert(cut - 1, noise)
+            damaged = f.eol.join(lines_)
+            inside = True
+            cut_pos = cut
+            cut = 0
+        else:
+            damaged = f.text[:cut]
+            inside = f.inside_module(cut)
         root = None
         base = {'modules': {}, 'requested': [req], 'options': {'ignoreErrors': True}, 'codegen': 'json', 'searchers': [], 'borrowers': []}
         try:
@@ -486,6 +513,9 @@ def sweep(tier):
         dl = f.decl_lines()
         for i in range(0, len(dl), 10):
             out.append({'k': 'insert', 'tier': tier, 'file': fi, 'lines': dl[i:i + 10]})
+        sspans = [(a, b) for (a, b) in token_spans(f) if f.text[a] == '"']
+        for i in range(0, len(sspans), 12):
+            out.append({'k': 'string', 'tier': tier, 'file': fi, 'spans': sspans[i:i + 12]})
         spans = token_spans(f)
         for i in range(0, len(spans), 60):
             out.append({'k': 'token', 'tier': tier, 'file': fi, 'spans': spans[i:i + 60]})
@@ -498,6 +528,10 @@ def sweep(tier):
         ic = f.indent_chars()
         for i in range(0, len(ic), 100):
             out.append({'k': 'indent', 'tier': tier, 'file': fi, 'positions': ic[i:i + 100]})
+        dl2 = f.decl_lines()
+        for via in ('sim', 'file', 'http'):
+            for noise in ('\x0c', '\x0b', '\x1c'):
+                out.append({'k': 'compile', 'tier': tier, 'file': fi, 'via': via, 'cuts': dl2[1::3][:12], 'noise': noise})
         stride = 7 if tier == 'quick' else 3
         cuts = list(range(0, n, stride))
         for via in ('sim', 'file', 'http', 'filecap'):
